@@ -112,6 +112,8 @@ PROPS["C09"] = {
         {"name": "C09ClientStdin", "pkg": RC, "test": "TestVerifC09ClientStdin", "kind": "enum"},
         # zero-length messages over an io.Pipe, then a quiet peer
         {"name": "C09EmptyMessage", "pkg": INT, "test": "TestVerifC09EmptyMessage", "kind": "enum"},
+        # the runner's reader of a client's output: the client answers k requests, takes the next one and stalls
+        {"name": "C09ClientStall", "pkg": CC, "test": "TestVerifC09ClientStall", "kind": "enum", "timeout": {"quick": 240, "thorough": 240}},
         {"name": "C09Fuzz", "pkg": INT, "test": "FuzzVerifC09Stream", "kind": "fuzz", "fuzz_target": "FuzzVerifC09Stream",
          "only_tiers": ["thorough"], "fuzztime": {"thorough": "60s"}, "workers": 16, "timeout": {"thorough": 600}},
     ],
@@ -146,6 +148,9 @@ PROPS["C18"] = {
          "checks": {"quick": 10000, "thorough": 150000}, "shards": {"quick": 2, "thorough": 8}},
         {"name": "C18StatusDecode", "pkg": RC, "test": "TestVerifC18StatusDecode", "kind": "rapid",
          "checks": {"quick": 10000, "thorough": 150000}, "shards": {"quick": 2, "thorough": 8}},
+        # response metadata as the gRPC reference client reports it, every kind of RPC against the in-process gRPC reference server
+        {"name": "C18GRPCClientMeta", "pkg": "internal/app/grpcclient", "test": "TestVerifC18GRPCClientMeta", "kind": "rapid",
+         "checks": {"quick": 1500, "thorough": 30000}, "shards": {"quick": 2, "thorough": 8}},
     ],
 }
 
@@ -205,7 +210,7 @@ PROPS["C14"] = {
 }
 
 PROPS["C16"] = {
-    "with": ["C15"],  # the HTTP/2 exchange driver of the C15 harness
+    "with": ["C15", "C11"],  # the HTTP/2 exchange driver of the C15 harness; the fake server process of the C11 harness
     "level": "exploration",
     "rule": ("(a) sequences of the atomic operations Init/Complete/Await/Clear/Cancel over 2 names and 2 waiters, ALL sequences of a bounded length (4 quick, 6 thorough; a waiter's context signals the driver when Await reaches its select, so every operation is linearised) and random sequences up to length 30 over 3 names, "
              "against a sequential slot model; (b) all orders of builder events (11 kinds incl. build) of bounded length, and 2-4 goroutines adding events with drawn yield points and GOMAXPROCS; "
@@ -218,6 +223,8 @@ PROPS["C16"] = {
     "units": [
         # refused stream, no retry: the trace is delivered by the retry timer; a later close must not complete it again
         {"name": "C16RetryTimer", "pkg": TR, "test": "TestVerifC16RetryTimer", "kind": "enum", "timeout": 300},
+        # the batch runner as user of the hand-off: a trace completed before the request is even reported as sent reaches the report
+        {"name": "C16RunnerHandOff", "pkg": CC, "test": "TestVerifC16RunnerHandOff", "kind": "enum", "timeout": 300},
         {"name": "C16TracerEnum", "pkg": TR, "test": "TestVerifC16TracerEnum", "kind": "enum", "race": {"quick": False, "thorough": False},
          "shards": {"quick": 8, "thorough": 16}, "env_tier": {"quick": {"VERIF_C16_MAXLEN": 5}, "thorough": {"VERIF_C16_MAXLEN": 6}}},
         {"name": "C16TracerRandom", "pkg": TR, "test": "TestVerifC16TracerRandom", "kind": "rapid", "race": {"quick": False, "thorough": True},
@@ -249,6 +256,8 @@ PROPS["C15"] = {
          "checks": {"quick": 10000, "thorough": 150000}, "shards": {"quick": 2, "thorough": 16}},
         # two connections accepted from one TracingHTTP2Listener: what happens on one does not disturb the held-back trace of the other
         {"name": "C15Listener", "pkg": TR, "test": "TestVerifC15Listener", "kind": "enum"},
+        # a refused stream that is never retried / refused twice / whose connection closes while the held-back trace is handed over
+        {"name": "C15RetryTimer", "pkg": TR, "test": "TestVerifC15RetryTimer", "kind": "enum", "timeout": 300},
         {"name": "C15Exchange", "pkg": TR, "test": "TestVerifC15Exchange", "kind": "rapid",
          "checks": {"quick": 2500, "thorough": 40000}, "shards": {"quick": 4, "thorough": 16}},
         {"name": "C15Fuzz", "pkg": TR, "test": "FuzzVerifC15Conn", "kind": "fuzz", "fuzz_target": "FuzzVerifC15Conn",
@@ -323,6 +332,8 @@ PROPS["C12"] = {
         {"name": "C12TLS", "pkg": RS, "test": "TestVerifC12TLS", "kind": "enum", "timeout": 600},
         {"name": "C12BlackBox", "pkg": RS, "test": "TestVerifC12BlackBox", "kind": "rapid",
          "checks": {"quick": 1500, "thorough": 20000}, "shards": {"quick": 2, "thorough": 8}},
+        # stop signal while a request is still being uploaded: the late (trailer) feedback still reaches stderr
+        {"name": "C12Shutdown", "pkg": RS, "test": "TestVerifC12Shutdown", "kind": "enum", "timeout": 600},
     ],
 }
 
